@@ -23,6 +23,21 @@ theorem legal_ok {T : Nat} {s : St} {o : Op} (hi : Inv T s) (hl : legal s o = tr
       split
       · rcases htr hrl with ht | ht <;> simp [timerExpired, ttInput, ht, TrafficTimer.table]
       · rfl
+  | stall n =>
+    simp only [step, stall]
+    cases htm : s.timer with
+    | none => rfl
+    | some d =>
+      obtain ⟨hm, _, _, _⟩ := h6 d htm
+      obtain ⟨c, hc, ho, htr⟩ := h4 (by simp [hm, inUse])
+      have hrl : s.role = some true := by
+        cases hr : s.role with
+        | none => simp_all
+        | some b => cases b <;> simp_all
+      simp only
+      split
+      · rcases htr hrl with ht | ht <;> simp [timerExpired, ttInput, ht, TrafficTimer.table]
+      · rfl
   | pause => rfl
   | resume => rfl
   | start =>
